@@ -49,6 +49,9 @@ def _worker(args):
         res.setdefault('error', None)
     except BaseException as ex:  # noqa
         res = {'error': ''.join(traceback.format_exception(type(ex), ex, ex.__traceback__))[-4000:]}
+    finally:
+        if 'pysym.shims' in sys.modules:
+            sys.modules['pysym.shims'].reset_all()
     res['task'] = task
     res['wall_s'] = round(time.time() - t0, 3)
     return res
